@@ -158,6 +158,84 @@ def leftAfterReinit (o : Obj) (dirty : List String) : List String :=
         -- not (unconditionally, plainly) assigned: stays dirty; a conditional/compound store makes it suspicious too
         dirty.contains f || ((reinitStores o).any (fun s => s.field == f)))
 
+
+/-! ## Part 1b — entry points as transitions: what a call may leave changed
+
+  A *run* is a sequence of calls of public entry points between two resets (set_tree +
+  encode_tree_to_wbxml; encode_tree + get_output; encode_node … delete_last_node … get_output).
+  What such a call may leave changed in the object is read off the tables: the stores of every
+  function reachable from the entry point along calls that pass the object on (`objCalls` whose
+  first argument is not a freshly created object) — minus the fields the entry point itself puts
+  back (`saved:<f>` as its last, unconditional store: a save / restore bracket such as
+  `wbxml_encoder_encode_tree` makes around `lang`). -/
+
+/-- Functions of the file that `name` calls on an object that existed before the call. -/
+def calleesOnObj (o : Obj) (name : String) : List String :=
+  match findFn o name with
+  | some f => ((f.objCalls.filter (fun c => c.2 != "fresh")).map (·.1)).filter (fun c => (findFn o c).isSome)
+  | none => []
+
+/-- Everything reachable from `acc` in at most `k` rounds. -/
+def reachN (o : Obj) : Nat → List String → List String
+  | 0, acc => acc
+  | k + 1, acc =>
+    let next := ((acc.flatMap (calleesOnObj o)).filter (fun c => !acc.contains c)).eraseDups
+    if next.isEmpty then acc else reachN o k (acc ++ next)
+
+/-- Functions reachable from the given roots along calls that pass the object on (the call graph of
+    the file has `o.fns.length` nodes, so that many rounds close it). -/
+def reach (o : Obj) (roots : List String) : List String := reachN o o.fns.length roots
+
+/-- Some function reachable from `roots` stores to `field` of an existing object. -/
+def mayWrite (o : Obj) (roots : List String) (field : String) : Bool :=
+  (reach o roots).any (fun n =>
+    match findFn o n with
+    | some f => fnWrites f field
+    | none => false)
+
+/-- `name` puts the entry value of `field` back on every path: each of its own stores to the field is
+    a plain unconditional store through the first parameter and the last one stores the saved entry
+    value.  (Vacuously true for a function without own stores to the field.) -/
+def restoresSaved (o : Obj) (name field : String) : Bool :=
+  let ss := (storesOf o name).filter (fun s => s.field == field)
+  match ss.getLast? with
+  | none => true
+  | some l => ss.all (fun s => s.op == "=" && !s.cond && s.base == "param0") && l.value == "saved:" ++ field
+
+/-- Does `name` itself store to `field` of an existing object? -/
+def ownWrites (o : Obj) (name field : String) : Bool :=
+  match findFn o name with
+  | some f => fnWrites f field
+  | none => false
+
+/-- May a call of entry point `e` leave `field` different from what it found?  Not if `e` brackets
+    the field (whatever its callees do in between); otherwise if `e` or anything reachable stores to it. -/
+def netMayWrite (o : Obj) (e field : String) : Bool :=
+  if ownWrites o e field && restoresSaved o e field then false
+  else ownWrites o e field || mayWrite o (calleesOnObj o e) field
+
+/-- A run made of calls of the entry points `k` leaves `field` as it found it. -/
+def keepsNet (o : Obj) (k : List String) (field : String) : Bool := k.all (fun e => !netMayWrite o e field)
+
+/-- Fields a run of kind `k` may leave changed (struct order): the model's prediction for OBS `dirty`. -/
+def netFields (o : Obj) (k : List String) : List String := (fieldNames o).filter (fun f => !keepsNet o k f)
+
+/-- Must the user call the setters of the sticky fields again after a run of kind `k` (and reset)?
+    Only if such a run may leave one of them changed. -/
+def reapplyAfter (o : Obj) (k : List String) : Bool := (stickyList o).any (fun f => !keepsNet o k f)
+
+/-- The re-initialisation function does not store to a sticky field at all. -/
+def reinitLeavesSticky (o : Obj) : Bool := (reinitStores o).all (fun s => !(stickyList o).contains s.field)
+
+/-- The encoder's run kinds, as lists of the public entry points called between two resets. -/
+def encTreeRunW : List String := ["wbxml_encoder_set_tree", "wbxml_encoder_encode_tree_to_wbxml"]
+def encTreeRunX : List String := ["wbxml_encoder_set_tree", "wbxml_encoder_encode_tree_to_xml"]
+def encFlowRun : List String := ["wbxml_encoder_encode_tree", "wbxml_encoder_get_output", "wbxml_encoder_get_output_len"]
+def encNodeRun : List String :=
+  ["wbxml_encoder_encode_node", "wbxml_encoder_encode_node_with_elt_end", "wbxml_encoder_encode_raw_elt_start",
+   "wbxml_encoder_encode_raw_elt_end", "wbxml_encoder_delete_last_node", "wbxml_encoder_delete_output_bytes",
+   "wbxml_encoder_get_output", "wbxml_encoder_get_output_len"]
+
 /-! ## Part 2 — the life-cycle machine -/
 
 /-- An object class. `body` is the per-document function: ARBITRARY, it sees every field. -/
@@ -273,5 +351,65 @@ def machineOf (o : Obj) (body : (String → String) → D → (String → String
     init := initOf o
     reinitAssign := reinitValue o
     body := body }
+
+
+/-! ### Histories that mix run kinds (encoder: tree runs, flow-style runs, node-wise runs)
+
+  The machine's documents are pairs (run kind, document): `M : Machine F V (K × D) R`.  `keeps k f`
+  says that a run of kind `k` leaves field `f` as it found it (read off the tables: nothing the
+  entry points of `k` reach stores to `f`, or the entry point puts the saved entry value back).
+  The body is still ARBITRARY — it may fail at any point and leave anything in the other fields. -/
+
+/-- One run of kind `k`: the arbitrary body; its stores to settings and to the fields that runs of
+    this kind leave alone are discarded. -/
+def Machine.runK {K : Type} (M : Machine F V (K × D) R) (keeps : K → F → Bool) (m : F → V) (k : K) (d : D) :
+    (F → V) × R :=
+  let p := M.run m (k, d)
+  (fun f => if keeps k f then m f else p.1 f, p.2)
+
+inductive Machine.KOp (F V D K : Type) where
+  | set (f : F) (v : V)
+  | run (k : K) (d : D)
+
+/-- ONE object: run, reset, and — only after the run kinds `re` names — the user calls the setters
+    of the sticky fields again. -/
+def Machine.kexec {K : Type} (M : Machine F V (K × D) R) (keeps : K → F → Bool) (re : K → Bool)
+    (m s : F → V) : List (Machine.KOp F V D K) → (F → V) × List R
+  | [] => (m, [])
+  | .set f v :: rest => Machine.kexec M keeps re (M.setUser m f v) (M.setUser s f v) rest
+  | .run k d :: rest =>
+    let p := M.runK keeps m k d
+    let m1 := M.reinit p.1
+    let q := Machine.kexec M keeps re (if re k then M.reapply s m1 else m1) s rest
+    (q.1, p.2 :: q.2)
+
+/-- ONE object: run, reset — nothing is ever re-applied. -/
+def Machine.kexecPlain {K : Type} (M : Machine F V (K × D) R) (keeps : K → F → Bool)
+    (m : F → V) : List (Machine.KOp F V D K) → (F → V) × List R
+  | [] => (m, [])
+  | .set f v :: rest => Machine.kexecPlain M keeps (M.setUser m f v) rest
+  | .run k d :: rest =>
+    let p := M.runK keeps m k d
+    let q := Machine.kexecPlain M keeps (M.reinit p.1) rest
+    (q.1, p.2 :: q.2)
+
+/-- The reference: every run on a NEW object with the settings current at that point. -/
+def Machine.kfresh {K : Type} (M : Machine F V (K × D) R) (keeps : K → F → Bool)
+    (s : F → V) : List (Machine.KOp F V D K) → List R
+  | [] => []
+  | .set f v :: rest => Machine.kfresh M keeps (M.setUser s f v) rest
+  | .run k d :: rest => (M.runK keeps (M.created s) k d).2 :: Machine.kfresh M keeps s rest
+
+/-- The run kinds that occur in a history. -/
+def Machine.kindsOf {K : Type} : List (Machine.KOp F V D K) → List K
+  | [] => []
+  | .set _ _ :: rest => Machine.kindsOf rest
+  | .run k _ :: rest => k :: Machine.kindsOf rest
+
+/-- The machine of an object class whose runs are lists of entry points, for an arbitrary body per
+    (entry points, document). -/
+def machineOfK (o : Obj) (body : List String → (String → String) → D → (String → String) × R) :
+    Machine String String (List String × D) R :=
+  machineOf o (fun m kd => body kd.1 m kd.2)
 
 end Wbxml.Model.Objects
